@@ -60,6 +60,11 @@ class ClientSession:
             self.log.debug('%s> closing in progress..', self._session_id)
             return
         self._close_event = asyncio.Event()
+        if self._message_queue.is_dispatcher_current_task():
+            # called from the message callback: the close stops the dispatcher, which is the very
+            # task that would be waiting here, so the close is carried out by this task instead
+            await self.soup_session.close()
+            return
         self.soup_session.initiate_close()
         await self._close_event.wait()
         self.log.debug('%s> closed.', self._session_id)
